@@ -16,21 +16,16 @@ Definition declared {A} (p : decl A) : bool := match p with Undeclared => false 
 Lemma mask_filter_some {A} (ms : option (list bool)) (rows l : list A) :
   mask_filter ms rows = Some l <-> fits ms rows = true /\ l = present ms rows.
 Proof.
-  unfold mask_filter, fits, present. destruct ms as [m|].
-  - destruct (Nat.eqb (List.length m) (List.length rows)); split.
-    + intros H. inversion H. auto.
-    + intros [_ ->]. reflexivity.
-    + discriminate.
-    + intros [H _]. discriminate.
-  - split; [intros H; inversion H; auto | intros [_ ->]; reflexivity].
+  unfold mask_filter. destruct (fits ms rows); split.
+  - intros H. inversion H. auto.
+  - intros [_ ->]. reflexivity.
+  - discriminate.
+  - intros [H _]. discriminate.
 Qed.
 
 Lemma mask_filter_none {A} (ms : option (list bool)) (rows : list A) :
   mask_filter ms rows = None <-> fits ms rows = false.
-Proof.
-  unfold mask_filter, fits. destruct ms as [m|]; [|split; discriminate].
-  destruct (Nat.eqb (List.length m) (List.length rows)); split; (discriminate || reflexivity).
-Qed.
+Proof. unfold mask_filter. destruct (fits ms rows); split; (discriminate || reflexivity). Qed.
 
 Lemma keep_present_In {A} (m : list bool) : forall (l : list A) x, In x (keep_present m l) -> In x l.
 Proof.
@@ -127,8 +122,9 @@ Proof.
   destruct (mask_filter (tp_missing p) (tp_values p)) as [v|] eqn:Ev; [|discriminate].
   inversion H; subst NL. apply mask_filter_some in Ei, Ev.
   destruct Ei as [F1 ->], Ev as [F2 ->]. unfold present, missing_at, fits in *.
-  destruct (tp_missing p) as [m|].
-  - apply Nat.eqb_eq in F1, F2. apply combine_keep_In_nth; assumption.
+  destruct (tp_missing p) as [[|b m]|].
+  - cbn. split; [tauto|]. intros [i [_ [_ H']]]. discriminate.
+  - rewrite !orb_false_r in F1, F2. apply Nat.eqb_eq in F1, F2. apply combine_keep_In_nth; assumption.
   - rewrite combine_In_nth. split; intros [i H']; exists i; tauto.
 Qed.
 
@@ -163,7 +159,7 @@ Qed.
 
 Lemma mask_filter_upd {A} (v : A) m l i : nth i m false = true ->
   mask_filter (Some m) (upd_nth i v l) = mask_filter (Some m) l.
-Proof. intros H. unfold mask_filter. rewrite upd_nth_length, (keep_present_upd v m l i H). reflexivity. Qed.
+Proof. intros H. unfold mask_filter, fits, present. rewrite upd_nth_length, (keep_present_upd v m l i H). reflexivity. Qed.
 
 Lemma annotated_fill ids vals m i v : nth i m false = true ->
   annotated_nodes ids {| tp_values := upd_nth i v vals; tp_missing := Some m |} =
